@@ -12,11 +12,12 @@ log Sync/GC, the expiry check that stops drained groups and destroys a drained p
 and over both shapes `cfg` of the comparison that guards `ResetAppendIndex`.
 Theorems are stated for follower A (fields without suffix); the model is symmetric under `St.swap`
 and the invariant is proved for both followers (`no_holes_b`, `agreement_b`, ... are the B instances).
-Helper lemmas: `LinVerif/Lemmas/C08Log.lean`, `C08Inv.lean`, `C08Step.lean`, `C08Run.lean`, `C08Live.lean`, `C08Sched.lean`.
+Helper lemmas: `LinVerif/Lemmas/C08Log.lean`, `C08Inv.lean`, `C08Step.lean`, `C08Run.lean`, `C08Live.lean`, `C08Sched.lean`, `C08Tok.lean`.
 -/
 import LinVerif.Lemmas.C08Run
 import LinVerif.Lemmas.C08Live
 import LinVerif.Lemmas.C08Sched
+import LinVerif.Lemmas.C08Tok
 import LinVerif.Generated.C08
 
 namespace LinVerif.Props.C08
@@ -390,18 +391,19 @@ theorem resync_catch_up (cfg : Cfg) (evs : List Ev) (k : Nat) (hsy : Synced (run
       split <;> omega
     · rw [this.2.2, e1, hp.2.2.1]
 
-/-- The wake-up is never lost (plain blocking send in `handleNodeStateChangeEvent`): in every reachable
+/-- The wake-up is never lost (plain blocking send in `handleNodeStateChangeEvent`, `cfg.wake`, or the token
+shape `cfg.tok`): in every reachable
 state a loop that is blocked in — or on its way into — `<-r.suspend` still has its suspend flag set, so
 the next online notification wins the CAS and hands the loop its token. (With a non-blocking send this
 is false: `Neg.wakeup_lost_if_nonblocking`.) -/
-theorem online_never_lost (cfg : Cfg) (hw : cfg.wake = true) (evs : List Ev) :
+theorem online_never_lost (cfg : Cfg) (hw : (cfg.tok || cfg.wake) = true) (evs : List Ev) :
     ((run cfg evs).parked = true → (run cfg evs).susp = true) ∧
     ((run cfg evs).parked2 = true → (run cfg evs).susp2 = true) :=
   ⟨(wk_run cfg hw evs).a, (wk_run cfg hw evs).b⟩
 
 /-- ... hence a parked loop is always released by the online notification, and without a further fault
 the channel ends synced -/
-theorem resync_parked_released (cfg : Cfg) (hw : cfg.wake = true) (evs : List Ev) (hp : (run cfg evs).parked = true)
+theorem resync_parked_released (cfg : Cfg) (hw : (cfg.tok || cfg.wake) = true) (evs : List Ev) (hp : (run cfg evs).parked = true)
     (hn : (run cfg evs).chan ≠ .ready) (hg : (run cfg evs).gone = false) (hst : (run cfg evs).stopped = false) :
     Synced (next cfg (run cfg evs) (.online .a .none)).1 ∧ (next cfg (run cfg evs) (.online .a .none)).1.parked = false := by
   have hs := (wk_run cfg hw evs).a hp
@@ -413,7 +415,7 @@ theorem resync_parked_released (cfg : Cfg) (hw : cfg.wake = true) (evs : List Ev
 particular between `isSuspend.CompareAndSwap(false, true)` and the receive on `r.suspend` (event
 `steponl`): the blocking send waits for the receive, the loop is released at once, re-runs IsReady and,
 without a further fault, ends synced and not parked. -/
-theorem resync_online_in_window (cfg : Cfg) (hw : cfg.wake = true) (evs : List Ev)
+theorem resync_online_in_window (cfg : Cfg) (hw : (cfg.tok || cfg.wake) = true) (evs : List Ev)
     (hn : (run cfg evs).chan ≠ .ready) (hl : (run cfg evs).live = false) (hp : (run cfg evs).parked = false)
     (hg : (run cfg evs).gone = false) (hst : (run cfg evs).stopped = false) :
     Synced (next cfg (run cfg evs) (.steponl .a .none)).1 ∧ (next cfg (run cfg evs) (.steponl .a .none)).1.parked = false := by
@@ -422,6 +424,39 @@ theorem resync_online_in_window (cfg : Cfg) (hw : cfg.wake = true) (evs : List E
   simp only [next, hg, Ev.who, peerEv, Bool.false_eq_true, if_false]
   rw [if_pos hc]
   simp only [hw, if_true]
+  refine ⟨replicaStep_none_syncs cfg _
+      (invA_mk (invc_notready (ch' := .failure) (st' := (run cfg evs).stream) (dz' := (run cfg evs).dz) (full_run cfg evs).a (fun x => by cases x))
+        rfl rfl rfl rfl rfl rfl rfl rfl) hst (fun x => by cases x) rfl, ?_⟩
+  refine (replicaStep_parked cfg _ .none ?_ ?_ ?_).1
+  · rfl
+  · exact hp
+  · rfl
+
+/-! ### the token shape of the suspend / wake-up handshake (`cfg.tok`, candidate repair fixes/C08-suspend-token.patch) -/
+
+/-- TOKEN SHAPE, every event sequence, both followers: a registered replicator's loop is parked ONLY WHILE ITS
+FOLLOWER IS OFFLINE, and `isSuspend` is set exactly while the loop is parked. This is the statement the tree as
+it is violates (`Neg.online_before_suspend_mark_parks`: parked ∧ live, nothing pending — known finding
+`online-notification-before-suspend-mark-lost`); no hypothesis about where the online notification lands. -/
+theorem token_parked_only_while_offline (cfg : Cfg) (ht : cfg.tok = true) (evs : List Ev) :
+    ((run cfg evs).stopped = false → (run cfg evs).parked = true → (run cfg evs).live = false) ∧
+    ((run cfg evs).stopped2 = false → (run cfg evs).parked2 = true → (run cfg evs).live2 = false) ∧
+    (run cfg evs).susp = (run cfg evs).parked ∧ (run cfg evs).susp2 = (run cfg evs).parked2 :=
+  ⟨(tk_run cfg ht evs).pla, (tk_run cfg ht evs).plb, (tk_run cfg ht evs).eqa, (tk_run cfg ht evs).eqb⟩
+
+/-- TOKEN SHAPE: the online notification handled BETWEEN IsReady's liveness test and its
+`isSuspend.CompareAndSwap(false, true)` (event `steppre`, the window of the known finding) releases the loop:
+the handler's token is waiting when the loop reaches its receive; without a further fault the call ends synced
+and not parked — after ANY history. -/
+theorem token_online_before_mark_released (cfg : Cfg) (ht : cfg.tok = true) (evs : List Ev)
+    (hn : (run cfg evs).chan ≠ .ready) (hl : (run cfg evs).live = false) (hp : (run cfg evs).parked = false)
+    (hg : (run cfg evs).gone = false) (hst : (run cfg evs).stopped = false) :
+    Synced (next cfg (run cfg evs) (.steppre .a .none)).1 ∧ (next cfg (run cfg evs) (.steppre .a .none)).1.parked = false := by
+  have hc : (run cfg evs).stopped = false ∧ (run cfg evs).parked = false ∧ (run cfg evs).chan ≠ .ready ∧ (run cfg evs).live = false :=
+    ⟨hst, hp, hn, hl⟩
+  simp only [next, hg, Ev.who, peerEv, Bool.false_eq_true, if_false]
+  rw [if_pos hc]
+  simp only [ht, if_true]
   refine ⟨replicaStep_none_syncs cfg _
       (invA_mk (invc_notready (ch' := .failure) (st' := (run cfg evs).stream) (dz' := (run cfg evs).dz) (full_run cfg evs).a (fun x => by cases x))
         rfl rfl rfl rfl rfl rfl rfl rfl) hst (fun x => by cases x) rfl, ?_⟩
@@ -881,25 +916,39 @@ theorem ackCond_eq (a r : Int) : C08.ackCond a r = decide (a = r) := rfl
 /-- handleNodeStateChangeEvent: `state == NodeOnline`, `isSuspend.CompareAndSwap(true, false)`, then the
 wake-up as a PLAIN BLOCKING send on `r.suspend` (the model's `Cfg.wake` is this fact); IsReady's only
 receive is the one on `r.suspend` -/
-theorem wake_send_blocking : C08.wakeSendBlocking = true := rfl
-theorem online_handler_sends : C08.onlineHandlerSends = ["plain: r.suspend <- struct{}{}"] := rfl
-theorem online_handler_conds : C08.onlineHandlerConds =
-    ["state == models.NodeOnline", "r.isSuspend.CompareAndSwap(true, false)"] := rfl
+theorem wake_send_blocking : C08.wakeSendBlocking = !C08.suspendChanBuffered := by decide
+theorem online_handler_sends :
+    (C08.suspendChanBuffered = false ∧ C08.onlineHandlerSends = ["plain: r.suspend <- struct{}{}"]) ∨
+    (C08.suspendChanBuffered = true ∧ C08.onlineHandlerSends = ["select/default: r.suspend <- struct{}{}"]) := by decide
+theorem online_handler_conds :
+    (C08.suspendChanBuffered = false ∧ C08.onlineHandlerConds = ["state == models.NodeOnline", "r.isSuspend.CompareAndSwap(true, false)"]) ∨
+    (C08.suspendChanBuffered = true ∧ C08.onlineHandlerConds = ["state == models.NodeOnline"]) := by decide
 theorem isReady_recvs : C08.isReadyRecvs = ["<-r.suspend"] := rfl
 
-/-- the suspend / wake-up handshake: the channel is unbuffered, IsReady's offline branch is
+/-- the suspend / wake-up handshake. EITHER the tree's shape: the channel is unbuffered, IsReady's offline branch is
 unlock · CAS(false,true) · state.Store · receive · recursion (the Wake model's `mark`, `block`, `take`;
-`test` is the `GetLiveNode` before the branch), so the tree has the `blocking` shape -/
-theorem suspend_chan_unbuffered : C08.suspendChanMake = "suspend: make(chan struct{})" := rfl
-theorem offline_branch_steps : C08.offlineBranchSteps =
-    ["call r.rwMutex.Unlock", "if r.isSuspend.CompareAndSwap(false, true)", "call r.state.Store", "<-r.suspend", "call r.IsReady"] := rfl
-theorem wake_shape : wakeShape = .blocking := rfl
+`test` is the `GetLiveNode` before the branch) — `blocking`; OR the token shape of fixes/C08-suspend-token.patch:
+capacity 1, the handler's only test is `state == NodeOnline`, its send is a select with default, and the loop
+clears `isSuspend` after the receive — `buffered`. Nothing else is accepted. -/
+theorem suspend_chan_unbuffered :
+    (C08.suspendChanBuffered = false ∧ C08.suspendChanMake = "suspend: make(chan struct{})") ∨
+    (C08.suspendChanBuffered = true ∧ C08.suspendChanMake = "suspend: make(chan struct{}, 1)") := by decide
+theorem offline_branch_steps :
+    (C08.suspendChanBuffered = false ∧ C08.offlineBranchSteps =
+      ["call r.rwMutex.Unlock", "if r.isSuspend.CompareAndSwap(false, true)", "call r.state.Store", "<-r.suspend", "call r.IsReady"]) ∨
+    (C08.suspendChanBuffered = true ∧ C08.offlineBranchSteps =
+      ["call r.rwMutex.Unlock", "if r.isSuspend.CompareAndSwap(false, true)", "call r.state.Store", "<-r.suspend",
+       "call r.isSuspend.Store(false)", "call r.IsReady"]) := by decide
+theorem wake_shape : wakeShape = (if C08.suspendChanBuffered then .buffered else .blocking) := by decide
 
 /-- the main model's two window events ARE the Wake model's schedules (same flag / liveness / parked) -/
 theorem steppre_is_wake_schedule (fixed mfail wake : Bool) :
     let s := run { fixed := fixed, mfail := mfail, wake := wake } [.offline .a, .steppre .a .none]
     let w := Wake.run .blocking [.off, .test, .on, .cas, .mark, .block]
-    s.live = w.live ∧ s.susp = w.susp ∧ s.parked = decide (w.lpc = .recv) ∧ w.hpc = .idle := by
+    s.live = w.live ∧ s.susp = w.susp ∧ s.parked = decide (w.lpc = .recv) ∧ w.hpc = .idle ∧
+    let s' := run { fixed := fixed, mfail := mfail, wake := wake, tok := true } [.offline .a, .steppre .a .none]
+    let w' := Wake.run .buffered [.off, .test, .on, .cas, .mark, .block, .take]
+    s'.live = w'.live ∧ s'.susp = w'.susp ∧ s'.parked = decide (w'.lpc = .recv) ∧ w'.hpc = .idle ∧ w'.tok = false := by
   cases fixed <;> cases mfail <;> cases wake <;> decide
 theorem steponl_is_wake_schedule (fixed mfail : Bool) :
     let s := run { fixed := fixed, mfail := mfail, wake := true } [.offline .a, .steponl .a .none]
@@ -907,7 +956,10 @@ theorem steponl_is_wake_schedule (fixed mfail : Bool) :
     s.live = w.live ∧ s.susp = w.susp ∧ s.parked = decide (w.lpc = .recv) ∧ w.hpc = .idle ∧
     let s' := run { fixed := fixed, mfail := mfail, wake := false } [.offline .a, .steponl .a .none]
     let w' := Wake.run .nonblocking [.off, .test, .mark, .on, .cas, .send, .block]
-    s'.live = w'.live ∧ s'.susp = w'.susp ∧ s'.parked = decide (w'.lpc = .recv) ∧ w'.hpc = .idle := by
+    s'.live = w'.live ∧ s'.susp = w'.susp ∧ s'.parked = decide (w'.lpc = .recv) ∧ w'.hpc = .idle ∧
+    let s'' := run { fixed := fixed, mfail := mfail, wake := false, tok := true } [.offline .a, .steponl .a .none]
+    let w'' := Wake.run .buffered [.off, .test, .mark, .on, .cas, .block, .take]
+    s''.live = w''.live ∧ s''.susp = w''.susp ∧ s''.parked = decide (w''.lpc = .recv) ∧ w''.hpc = .idle ∧ w''.tok = false := by
   cases fixed <;> cases mfail <;> decide
 
 /-- the expiry tick's emptiness test is `consumerGroup.IsEmpty` = appended ≤ ACKNOWLEDGED: the Tick model's
@@ -1002,12 +1054,15 @@ theorem isReady_ahead (r a : Int) :
     | rfl
     | (simp only [Bool.false_eq_true, if_false, if_true, gt_iff_lt, ge_iff_le, decide_eq_decide]; omega)
 
+/-- (the token shape of the suspend handshake has one more call in the offline branch: `isSuspend.Store` after the receive) -/
 theorem isReady_calls : C08.isReadyCalls =
-    ["state.Load", "stateMgr.GetLiveNode", "isSuspend.CompareAndSwap", "state.Store", "r.IsReady", "r.closeStream",
+    ["state.Load", "stateMgr.GetLiveNode", "isSuspend.CompareAndSwap", "state.Store"] ++
+    (if C08.suspendChanBuffered then ["isSuspend.Store"] else []) ++
+    ["r.IsReady", "r.closeStream",
      "state.Store", "cliFct.CreateReplicaServiceClient", "state.Store", "state.Store", "r.getLastAckIdxFromReplica",
      "state.Store", "r.ReplicaIndex", "state.Store", "r.AppendIndex", "r.AckIndex", "state.Store", "replicaCli.Reset",
      "state.Store", "r.ResetReplicaIndex", "state.Store", "r.ResetAppendIndex", "state.Store", "r.ResetReplicaIndex",
-     "r.SetAckIndex", "r.ReplicaIndex", "state.Store", "state.Store"] := rfl
+     "r.SetAckIndex", "r.ReplicaIndex", "state.Store", "state.Store"] := by decide
 
 /-- fanOutQueue.Sync: nothing without a registered group; else the minimum over the registered
 groups starting from appended, applied when ≥ 0 -/
@@ -1216,7 +1271,7 @@ theorem reappend_before_handshake (cfg : Cfg) :
     (run cfg witnessB).L.get 5 = some [0xb5] ∧ (run cfg witnessB).F.get 5 = some [0xa5] ∧
     (run cfg witnessB).gack = 6 := by
   cases cfg with
-  | mk fixed mfail wake => cases fixed <;> cases mfail <;> cases wake <;> decide
+  | mk fixed mfail wake tok => cases fixed <;> cases mfail <;> cases wake <;> cases tok <;> decide
 
 /-- the full-strength agreement clause for histories with leader tail loss ("whenever the
 channel is synced, a position held by both holds the same bytes") does not hold, for either shape
@@ -1272,13 +1327,13 @@ theorem other_follower_moves_group (cfg : Cfg) :
     (run cfg witnessE0).gack2 = 6 ∧ (run cfg witnessE0).cons2 = 6 ∧ (run cfg witnessE0).F2.app = 3 ∧
     (run cfg witnessE0).L.ack = 6 := by
   cases cfg with
-  | mk fixed mfail wake => cases fixed <;> cases mfail <;> cases wake <;> decide
+  | mk fixed mfail wake tok => cases fixed <;> cases mfail <;> cases wake <;> cases tok <;> decide
 
 /-- the next message for B ends in the mismatched-answer branch (either shape) -/
 theorem mismatch_reachable (cfg : Cfg) :
     (next cfg (run cfg (witnessE0 ++ [.append [0xb7]])) (.step .b .none)).2 = .mismatch := by
   cases cfg with
-  | mk fixed mfail wake => cases fixed <;> cases mfail <;> cases wake <;> decide
+  | mk fixed mfail wake tok => cases fixed <;> cases mfail <;> cases wake <;> cases tok <;> decide
 
 /-- the tree as it is: B's channel stays `ready`, every later message is refused, B never gets b7, b8 -/
 theorem other_follower_wedged (fixed : Bool) :
@@ -1373,6 +1428,14 @@ theorem online_before_suspend_mark_parks (fixed mfail wake : Bool) :
     (next cfg s (.step .a .none)).2 = .suspended ∧ (next cfg s (.step .a .none)).1.F.app = -1 ∧
     (run cfg [.append [1], .offline .a, .steppre .a .none, .offline .a, .online .a .none]).parked = false ∧
     (run cfg [.append [1], .offline .a, .steppre .a .none, .offline .a, .online .a .none]).F.app = 0 := by
+  cases fixed <;> cases mfail <;> cases wake <;> decide
+
+/-- the same witness in the token shape (fixes/C08-suspend-token.patch): the loop is released by the token the
+handler left, the handshake runs and the pending message arrives — no bounce of the follower needed -/
+theorem online_before_suspend_mark_repaired (fixed mfail wake : Bool) :
+    let cfg : Cfg := { fixed := fixed, mfail := mfail, wake := wake, tok := true }
+    let s := run cfg [.append [1], .offline .a, .steppre .a .none]
+    s.live = true ∧ s.parked = false ∧ s.susp = false ∧ Synced s ∧ s.F.app = 0 ∧ s.gack = 0 := by
   cases fixed <;> cases mfail <;> cases wake <;> decide
 
 /-- (not in the tree, seeded c08-7) a non-blocking send loses the wake-up in the window AFTER the mark — under
